@@ -34,8 +34,7 @@ func readTlvStream(
 		for {
 			rdr := enc.NewBufferReader(recvBuf[tlvOff:recvOff])
 
-			typ, err := enc.ReadTLNum(rdr)
-			if err != nil {
+			if _, err := enc.ReadTLNum(rdr); err != nil {
 				// Probably incomplete packet
 				break
 			}
@@ -51,7 +50,10 @@ func readTlvStream(
 				return errors.New("received TLV block larger than the maximum packet size")
 			}
 
-			tlvSize := typ.EncodingLength() + len.EncodingLength() + int(len)
+			// The header is as long as what was read: a number that is not written in
+			// its shortest form is accepted by ReadTLNum (and by every parser behind
+			// this function), so its size cannot be derived from its value.
+			tlvSize := rdr.Pos() + int(len)
 
 			if recvOff-tlvOff >= tlvSize {
 				// Packet was successfully received, send up to link service
